@@ -2,6 +2,7 @@ package main
 
 import (
 	"fmt"
+	"go/token"
 	"sort"
 	"strings"
 
@@ -159,7 +160,7 @@ func checkC13(c *Ctx) {
 	c.Check(okTC && n >= 3, "R13.3", "typecheck operands", "", fmt.Sprintf("%d call sites use <pkg>.ImportPath and importerForPkg(<pkg>)", n), why)
 
 	// R13.4 ---------------------------------------------------------------
-	c.Rule("R13.4", "garble map omits an object only for the four documented reasons", 1)
+	c.Rule("R13.4", "garble map omits an object only for the documented reasons", 1)
 	// inside the loop over info.Defs: edges that continue
 	var header *ssa.BasicBlock
 	for f := range mapFns {
@@ -199,10 +200,18 @@ func checkC13(c *Ctx) {
 				skips = append(skips, "no object path")
 			case sl.HasCall("(go/types.Object).Parent") || sl.HasCall("(*go/types.Package).Scope"):
 				skips = append(skips, "not package-level")
+			case sl.HasCall("mvdan.cc/garble.namedType"):
+				skips = append(skips, "embedded field of an unnamed type")
 			default:
 				if v, nonNil, ok := nilTest(cond); ok && outcome != nonNil {
 					if _, isExtract := v.(*ssa.Extract); isExtract {
 						skips = append(skips, "nil object")
+						continue
+					}
+				}
+				if bo, ok := cond.(*ssa.BinOp); ok && bo.Op == token.EQL && outcome {
+					if k, ok := constString(bo.Y); ok && k == "_" && sl.HasCall("(go/types.Object).Name") {
+						skips = append(skips, "blank identifier")
 						continue
 					}
 				}
@@ -219,4 +228,106 @@ func checkC13(c *Ctx) {
 		}
 	}
 	c.Check(bad == "", "R13.4", "commandMap skip reasons", w.Pos(cm.Pos()), "skips: "+strings.Join(skips, ", "), "garble map drops objects for an undocumented reason ("+bad+"): obfuscated API objects are missing from its output")
+
+	// R13.5 ---------------------------------------------------------------
+	// The build does not hand every identifier's object to the naming decision as it is:
+	// the identifier visitor of transformGoFile leaves "_" alone and names an embedded
+	// field after its *type* (the field's identifier is the type's name). garble map
+	// enumerates objects instead of identifiers, so it must take the same two steps,
+	// or it prints names the build never uses.
+	c.Rule("R13.5", "garble map takes the same steps before the naming decision as the build's identifier visitor (blank names, embedded fields)", 2)
+	has := func(k string) bool {
+		for _, s := range skips {
+			if s == k {
+				return true
+			}
+		}
+		return false
+	}
+	visitorBlank, visitorEmbedded := false, false
+	for name, fn := range w.funcs {
+		if !strings.HasPrefix(name, "(*transformer).transformGoFile$") {
+			continue
+		}
+		for _, b := range fn.Blocks {
+			for _, in := range b.Instrs {
+				switch x := in.(type) {
+				case *ssa.BinOp:
+					if k, ok := constString(x.Y); ok && k == "_" && x.Op == token.EQL {
+						visitorBlank = true
+					}
+				case *ssa.Call:
+					if calleeName(x) == "(*go/types.Var).Embedded" {
+						visitorEmbedded = true
+					}
+				}
+			}
+		}
+	}
+	if !visitorBlank && !visitorEmbedded {
+		c.Undecided("R13.5", "identifier visitor pre-steps", "", "the identifier visitor of transformGoFile has neither step: the rule's reference moved")
+	} else {
+		c.Check(!visitorBlank || has("blank identifier"), "R13.5", "blank identifiers", w.Pos(cm.Pos()), "skipped by the visitor and by map",
+			"the build keeps '_' but garble map lists a hashed name for blank fields (and garble reverse then rewrites that string to '_')")
+		mapEmbedded := false
+		for f := range mapFns {
+			for _, cs := range w.CallsTo("(*mvdan.cc/garble.transformer).obfuscatedObjectName") {
+				if cs.Fn != f {
+					continue
+				}
+				if w.BackSlice(cs.Args()[len(cs.Args())-1], sliceOpt{}).HasCall("mvdan.cc/garble.namedType") {
+					mapEmbedded = true
+				}
+			}
+		}
+		c.Check(!visitorEmbedded || mapEmbedded, "R13.5", "embedded fields", w.Pos(cm.Pos()), "named after their type by the visitor and by map",
+			"the build names an embedded field after its type, garble map hashes it as an ordinary field with the struct salt: the listed name occurs nowhere in the build")
+	}
+
+	// R13.6 ---------------------------------------------------------------
+	// garble reverse walks the syntax of each package; every kind of object that garble map
+	// lists must have a case there, or its name is never mapped back.
+	c.Rule("R13.6", "garble reverse has a case for every kind of object garble map lists (funcs, types, package-level vars, fields, interface methods)", 5)
+	var revFns []*ssa.Function
+	for name, fn := range w.funcs {
+		if name == "commandReverse" || strings.HasPrefix(name, "commandReverse$") {
+			revFns = append(revFns, fn)
+		}
+	}
+	cases := map[string]*ssa.BasicBlock{}
+	var fieldBody *ssa.BasicBlock
+	var fieldFn *ssa.Function
+	for _, fn := range revFns {
+		for _, ts := range typeSwitches(fn) {
+			for _, cse := range ts.Cases {
+				t := cse.Type.String()
+				if i := strings.LastIndex(t, "."); i >= 0 && strings.Contains(t, "go/ast") {
+					cases[t[i+1:]] = cse.Body
+					if t[i+1:] == "Field" {
+						fieldBody, fieldFn = cse.Body, fn
+					}
+				}
+			}
+		}
+	}
+	for _, k := range []string{"FuncDecl", "TypeSpec", "ValueSpec", "Field"} {
+		what := map[string]string{"FuncDecl": "functions and methods", "TypeSpec": "types", "ValueSpec": "package-level variables", "Field": "struct fields and interface methods"}[k]
+		c.Check(cases[k] != nil, "R13.6", "reverse case *ast."+k, w.Pos(cm.Pos()), what,
+			"garble reverse has no case for *ast."+k+": the names of "+what+" that garble map lists (and the build uses) are never mapped back")
+	}
+	ifaceMethods := false
+	if fieldBody != nil {
+		for _, b := range fieldFn.Blocks {
+			if !fieldBody.Dominates(b) {
+				continue
+			}
+			for _, in := range b.Instrs {
+				if ta, ok := in.(*ssa.TypeAssert); ok && strings.HasSuffix(ta.AssertedType.String(), "types.Func") {
+					ifaceMethods = true
+				}
+			}
+		}
+	}
+	c.Check(ifaceMethods, "R13.6", "reverse handles interface methods", w.Pos(cm.Pos()), "the *ast.Field case recognises *types.Func",
+		"the *ast.Field case only accepts struct fields: an unexported method that exists only in an interface is listed by garble map and renamed by the build, but never reversed")
 }
